@@ -177,6 +177,15 @@ def r10_4(ctx, rr):
             a2 = cmp_atoms("==", mk_op("%", mk_op("*", cs, bw), BITS), ("int", 0))
             if (la == a1 and ra == a2) or (la == a2 and ra == a1):
                 ok_c = any(x is lits[0][2] for x in walk(n["th"]))
+    if not ok_c:
+        # decided on the facts that hold where the views are created (an early `return Err(())` under the negated test
+        # leaves exactly this disjunction behind): in every case, len <= chunk_size or the chunk is a whole number of words
+        a1 = atom_le(ln, cs)
+        a2s = cmp_atoms("==", mk_op("%", mk_op("*", cs, bw), BITS), ("int", 0))
+        try:
+            ok_c = all(kc.entails(a1) or all(kc.entails(a) for a in a2s) for kc in K.cases())
+        except Exception:
+            ok_c = False
     rr.instances += 1
     rr.check(ok_c, "try_chunks_mut:condition", "try_chunks_mut may succeed only when len <= chunk_size or chunk_size * bit_width is a multiple of the word size (chunks must start at word boundaries)", b.span)
     nb = F.one(r"^<bits::bit_field_vec::ChunksMut<'a, W> as std::iter::Iterator>::next$")
@@ -557,6 +566,19 @@ def r10_8(ctx, rr):
                     exact = any(a[2] == mk_op("-", L, base) and a[3] == -1 for a in his for L in others)
                     ok = lo_ok and exact
                     why = "first word %s, loop variable bounded by %s, last word(s) %s" % (tshow(base)[:60], [tshow(a[2])[:60] for a in his], [tshow(x)[:60] for x in others])
+            # ... or the loop variable is the word index itself, ranging exactly over first + 1 .. last
+            if not ok and t[0] == "var":
+                los = [a for a in K.atoms if a[0] == "le" and a[2] == t]
+                his = [a for a in K.atoms if a[0] == "le" and a[1] == t and a[3] <= -1]
+                for base in flat_idx:
+                    for L in flat_idx:
+                        if base == L:
+                            continue
+                        lo_exact = any((a[1] == base and a[3] == -1) or (mk_op("+", base, ("int", 1)) == a[1] and a[3] == 0) for a in los)
+                        hi_exact = any(a[2] == L and a[3] == -1 for a in his)
+                        if lo_exact and hi_exact:
+                            ok = True
+                why = "word index %s bounded below by %s and above by %s; masked words %s" % (tshow(t), [tshow(a[1])[:40] for a in los], [tshow(a[2])[:40] for a in his], [tshow(x)[:40] for x in flat_idx])
             key = "BitFieldVec::copy:middle-words-cover-destination"
             rr.ob(ok, key=key + str(n_loops))
             if not ok:
@@ -674,7 +696,9 @@ def r14_11(ctx, rr):
         return [t]
 
     def strictly_above(idx, a, K):
-        # idx = a + r with r >= 1
+        # idx = a + r with r >= 1 (or a < idx known outright)
+        if K.entails(atom_le(a, idx, True)):
+            return True
         s = summands(idx)
         sa = summands(a)
         rest = list(s)
@@ -705,7 +729,8 @@ def r14_11(ctx, rr):
         return K.entails(atom_le(rest[0], mk_op("-", bb, a), True))
     for n, br, what, K, W in whole:
         rr.instances += 1
-        M = sorted(masked.get(br, ()), key=repr)
+        # (masked updates common to all branches, written once outside the case analysis, count for each of them)
+        M = sorted(set(masked.get(br, ())) | set(masked.get(None, ())), key=repr)
         ok = False
         if what[0] == "one":
             ok = any(strictly_above(what[1], a, K) and strictly_below(what[1], a, bb, K) for a in M for bb in M if a != bb)
